@@ -148,13 +148,23 @@ func (w *world) runIdler(x *idler) {
 		// WatchState watcher: checks every pair it is shown, stops after a few
 		seen := 0
 		c.Descf("watcher %d: WatchState", x.id)
+		var cbErr error
+		if c.S.PlanP(300) {
+			cbErr = errors.New("watch-callback-error")
+		}
 		x.inCall = true
 		err := w.q.WatchState(ctx, errCh, func(queued, running int) (bool, error) {
 			w.checkCounts("WatchState", queued, running)
 			seen++
+			if seen >= 3 && cbErr != nil {
+				return true, cbErr
+			}
 			return seen < 4, nil
 		})
 		x.inCall = false
+		if cbErr != nil && err == cbErr {
+			err = nil
+		}
 		if err != nil && !(err == context.Canceled && x.cancelReq != 0) {
 			c.Fail("C18.W2.watch-error", "WatchState returned %v (cancelled=%v)", err, x.cancelReq != 0)
 		}
@@ -230,7 +240,7 @@ func run(c *core.Ctx) {
 	w := &world{c: c}
 	c.PanicOracle = "C18.P.panic"
 	c.SpinOracle = "C18.SPIN.busy-wait"
-	w.limit = c.S.Plan(4)
+	w.limit = c.S.Plan(5) - 1 // -1 and 0: unlimited
 	var init []func()
 	ninit := 0
 	if c.S.PlanP(300) {
@@ -247,6 +257,13 @@ func run(c *core.Ctx) {
 	ret := c.Tick()
 	for _, j := range w.jobs {
 		j.enqRet = ret
+	}
+	if w.limit < 0 {
+		w.limit = 0
+	}
+	// an Enqueue without jobs reports the counts (also right after the constructor started the initial elements)
+	if q, r := w.q.Enqueue(); true {
+		w.checkCounts("Enqueue()", q, r)
 	}
 	np := c.IntRange(1, 3)
 	var tasks []*simrt.Task
